@@ -157,7 +157,9 @@ func newPackage(program *loader.Program, pkgInfo *loader.PackageInfo, plugins []
 				}
 				changed = true
 				log.Printf("changing function call name from %s to %s", call.Name, name)
-				call.Expr.Fun = ast.NewIdent(name)
+				// the new identifier stands where the old one stood: without a position the printer moves
+				// comments next to it and joins the lines of a multi-line expression list.
+				call.Expr.Fun = &ast.Ident{NamePos: call.Expr.Fun.Pos(), Name: name}
 			}
 		}
 
